@@ -160,8 +160,15 @@ def run_traced(fn, data_paths, tmpdir, crash_at=None):
                             tracer.snapshots[p] = f.read()
                     except IOError:
                         tracer.snapshots[p] = None
+            finals = {}
+            for p in tracer.data_paths:
+                try:
+                    with open(p, 'r', newline='') as f:
+                        finals[p] = f.read()
+                except IOError:
+                    finals[p] = None
             payload = json.dumps({'result': res, 'events': tracer.events, 'snapshots': tracer.snapshots,
-                                  'tmp_paths': tracer.tmp_paths}).encode()
+                                  'finals': finals, 'tmp_paths': tracer.tmp_paths}).encode()
             with os.fdopen(w, 'wb') as f:
                 f.write(payload)
         except BaseException:
